@@ -288,7 +288,13 @@ def _mac(ctx):
                                 'aa:bb:cc:dd:ee:fg', 'aa:bb:cc:dd:ee:ff\n',
                                 'aa:bb:cc:dd:ee:f', '', ' aa:bb:cc:dd:ee:ff',
                                 'aa:bb:cc:dd:ee:ff ', 'a:b:c:d:e:f',
-                                'aa:bb:cc:dd:ee:ff:', '0a:1B:2c:3D:4e:5F')),
+                                'aa:bb:cc:dd:ee:ff:', '0a:1B:2c:3D:4e:5F',
+                                # characters that turn into hex digits
+                                # under some case mapping
+                                '52:54:00:cf:2d:\ufb00', 'AA:BB:CC:DD:EE:\ufb00',
+                                '\uff21A:bb:cc:dd:ee:ff',
+                                'aa:bb:cc:dd:ee:f\u0131', 'aa:bb:cc:dd:ee:\u0661f',
+                                'aa:bb:cc:dd:ee:ff\n')),
                        ('other', (None, 5, b'aa:bb:cc:dd:ee:ff',
                                   ['aa:bb:cc:dd:ee:ff']))):
         def thunk(interp):
@@ -367,7 +373,8 @@ def _ranges(ctx):
     val = T('sym', 'value')
     grid = (0, 1, 255, 256, 65535, 65536, -1, '0', '255', '256', '65535',
             '65536', '-1', ' 80 ', '', None, 'a', 1.5, '1.5', True, '0x10',
-            '+5', '1_0', [1])
+            '+5', '1_0', [1], '\u00b2', '8\u00b2', '\u2460', '\u0663',
+            '9' * 5000, '00080', ' 80', '80\n', b'80', 65535.0, '65535.0')
 
     def ref(lo, hi, none_ok=False):
         def oracle(v):
